@@ -1,16 +1,18 @@
-import PwVerif.Model.Storage
+import PwVerif.Model.StorageTree
 import PwVerif.Model.Proto
 open PwVerif PwVerif.Storage PwVerif.Proto
 
 /-- the variants are run side by side on the same op stream; every op prints one line per
 variant (`I …` = inPlace/pinned, `A …` = atomicReplace with the delete that ignores leftovers (before `1e4658d`),
-`S …` = atomicReplace with the delete that sweeps leftovers = the tree as it is) -/
+`S …` = atomicReplace with the delete that sweeps leftovers = the tree as it is, `C …` = S + the clean-up of a
+nested store climbs to the directories it emptied (proposed repair)) -/
 structure St where
-  wi : World
-  wa : World
-  ws : World
+  wi : TWorld
+  wa : TWorld
+  ws : TWorld
+  wc : TWorld
 
-def init : St := ⟨.init Cls.graph, .init Cls.graph, .init Cls.graph⟩
+def init : St := ⟨.init Cls.graph, .init Cls.graph, .init Cls.graph, .init Cls.graph⟩
 
 def showFile : FileSt → String
   | .absent => "absent" | .empty => "empty" | .torn => "torn"
@@ -43,47 +45,124 @@ def parseRel : String → Option ClassRel
 def parseContent : String → Option Content
   | "ok" => some .ok | "pf" => some .pickleFails | "bf" => some .bothFail | _ => none
 
-/-- the file-system calls an op performs, as the harness sees them on the real code
-(the `finally` / delete `rmdir` shows only when the directory is actually removed) -/
-def trace (cfg : Cfg) (w : World) : Op → List String
+def storePrefix : Store → String
+  | .main => "" | .recovery => "r." | .childA => "a." | .childB => "b."
+
+def storeDirName : Store → String
+  | .main => "" | .recovery => "" | .childA => ":a" | .childB => ":b"
+
+/-- a flat step name, addressed to a store: `open:pt` → `open:r.pt`, `mkdir` → `mkdir:a`, `rmdir` → `rmdir:a` -/
+def showStepAt (s : Store) : Step → String
+  | .mkdir => "mkdir" ++ storeDirName s
+  | .open x => "open:" ++ storePrefix s ++ showSlot x
+  | .write x => "write:" ++ storePrefix s ++ showSlot x
+  | .close x _ _ => "close:" ++ storePrefix s ++ showSlot x
+  | .unlink x => "unlink:" ++ storePrefix s ++ showSlot x
+  | .replace a b => "replace:" ++ storePrefix s ++ showSlot a ++ ">" ++ storePrefix s ++ showSlot b
+  | .rmdirIfEmpty => "rmdir" ++ storeDirName s
+
+/-- the file-system calls one flat op on store `s` performs, as the harness sees them on the real code (a `rmdir`
+shows only when a directory is actually removed) -/
+def trace1 (tc : TCfg) (t : Tree) (s : Store) (cls : Cls) (op : Op) : List String :=
+  let cfg := tc.cfg
+  let fs := t.view s
+  let busy := t.busy s
+  let t' := (apply1 tc t s ⟨cls, 0⟩ op).1
+  let climbed := if t.gdir && !t'.gdir && (s == .childA || s == .childB) then ["rmdir"] else
+    -- `g/` was created by `mkdir(parents=True)` of the child and removed again by the climbing clean-up
+    if !t.gdir && !t'.gdir && tc.climb && (s == .childA || s == .childB) && op.isSave then ["rmdir"] else []
+  match op with
   | .save c v =>
-    let st := saveSteps cfg.saveMode c w.node.cls v
-    let fs1 := runSteps w.fs st
-    st.map showStep ++ (if fs1.noFiles then ["rmdir"] else [])
-  | .crash c v k => ((saveSteps cfg.saveMode c w.node.cls v).take k).map showStep
+    let st := saveSteps cfg.saveMode c cls v
+    let fs1 := runSteps fs st
+    st.map (showStepAt s) ++ (if fs1.noFiles && !busy then ["rmdir" ++ storeDirName s] else []) ++ climbed
+  | .crash c v k => ((saveSteps cfg.saveMode c cls v).take k).map (showStepAt s)
   | .delete =>
-    let st := if hasSaved w.fs || (cfg.sweep && hasLeftover w.fs) then deleteSteps cfg.saveMode else []
-    let fs1 := runSteps w.fs st
-    st.map showStep ++ (if fs1.dir && fs1.noFiles then ["rmdir"] else [])
+    let st := if hasSaved fs || (cfg.sweep && hasLeftover fs) then deleteSteps cfg.saveMode else []
+    let fs1 := runSteps fs st
+    st.map (showStepAt s) ++ (if fs1.dir && fs1.noFiles && !busy then ["rmdir" ++ storeDirName s] else []) ++ climbed
   | _ => []
 
-def obs (tag : String) (cfg : Cfg) (w : World) (op : Op) : World × String :=
-  let (w', r) := Storage.step cfg w op
-  (w', s!"{tag} {showRes r} | {showFS w'.fs} | has={if hasSaved w'.fs then 1 else 0} | node={w'.node.ver} | steps={",".intercalate (trace cfg w op)}")
+def ttrace (tc : TCfg) (w : TWorld) : TOp → List String
+  | .on s op => trace1 tc w.tree s w.node.cls op
+  | .ckpt c v =>
+    let t1 := (apply1 tc w.tree .main w.node (.save c v)).1
+    trace1 tc w.tree .main w.node.cls (.save c v) ++
+      (if c = .bothFail then trace1 tc t1 .recovery w.node.cls (.save c v) else [])
+  | .ckptCrash c v k => trace1 tc w.tree .main w.node.cls (.crash c v k)
+  | .fail c v => trace1 tc w.tree .recovery w.node.cls (.save c v)
+  | .failCrash c v k => trace1 tc w.tree .recovery w.node.cls (.crash c v k)
 
-def both (s : St) (op : Op) : St × List String :=
-  let (wi, li) := obs "I" Cfg.pinned s.wi op
-  let (wa, la) := obs "A" Cfg.unswept s.wa op
-  let (ws, ls) := obs "S" Cfg.current s.ws op
-  (⟨wi, wa, ws⟩, [li, la, ls])
+def showFiles (f : Files) : String :=
+  s!"{showFile f.pckl},{showFile f.cpckl},{showFile f.pcklTmp},{showFile f.cpcklTmp}"
+
+def showTree (t : Tree) : String :=
+  s!"{showFS (t.view .main)} | rec={showFiles t.recov} | a={if t.adir then 1 else 0}:{showFiles t.a} | b={if t.bdir then 1 else 0}:{showFiles t.b}"
+
+def obs (tag : String) (tc : TCfg) (w : TWorld) (op : TOp) : TWorld × String :=
+  let (w', rs) := tstep tc w op
+  (w', s!"{tag} {"+".intercalate (rs.map showRes)} | {showTree w'.tree} | has={if hasSaved (w'.tree.view .main) then 1 else 0} | node={w'.node.ver} | steps={",".intercalate (ttrace tc w op)}")
+
+def both (s : St) (op : TOp) : St × List String :=
+  let (wi, li) := obs "I" ⟨Cfg.pinned, false⟩ s.wi op
+  let (wa, la) := obs "A" ⟨Cfg.unswept, false⟩ s.wa op
+  let (ws, ls) := obs "S" TCfg.current s.ws op
+  let (wc, lc) := obs "C" TCfg.climbing s.wc op
+  (⟨wi, wa, ws, wc⟩, [li, la, ls, lc])
+
+def parseStore : String → Option Store
+  | "main" => some .main | "rec" => some .recovery | "a" => some .childA | "b" => some .childB | _ => none
+
+/-- the flat ops (the live root node and its own file name, or addressed to a store with `at`) -/
+def parseOp : List String → Option Op
+  | ["save", c, v] =>
+    match parseContent c, v.toNat? with
+    | some c, some v => some (.save c v)
+    | _, _ => none
+  | ["crash", c, v, k] =>
+    match parseContent c, v.toNat?, k.toNat? with
+    | some c, some v, some k => some (.crash c v k)
+    | _, _, _ => none
+  | ["load"] => some .load
+  | ["delete"] => some .delete
+  | ["reopen"] => some .reopen
+  | ["foreign", rel, v] =>
+    match parseRel rel, v.toNat? with
+    | some rel, some v => some (.loadForeign (Cls.ofRel rel) v)
+    | _, _ => none
+  | _ => none
 
 def step (s : St) (ws : List String) : St × List String :=
   match ws with
-  | ["save", c, v] =>
-    match parseContent c, v.toNat? with
-    | some c, some v => both s (.save c v)
+  | "at" :: st :: rest =>
+    match parseStore st, parseOp rest with
+    | some st, some op =>
+      -- auto-load and foreign loads exist for the graph's own file name only
+      match st, op with
+      | .main, _ => both s (.on .main op)
+      | _, .reopen => (s, ["bad-op"])
+      | _, .loadForeign _ _ => (s, ["bad-op"])
+      | _, _ => both s (.on st op)
     | _, _ => (s, ["bad-op"])
-  | ["crash", c, v, k] =>
-    match parseContent c, v.toNat?, k.toNat? with
-    | some c, some v, some k => both s (.crash c v k)
-    | _, _, _ => (s, ["bad-op"])
-  | ["load"] => both s .load
-  | ["delete"] => both s .delete
-  | ["reopen"] => both s .reopen
-  | ["foreign", rel, v] =>
-    match parseRel rel, v.toNat? with
-    | some rel, some v => both s (.loadForeign (Cls.ofRel rel) v)
-    | _, _ => (s, ["bad-op"])
-  | _ => (s, ["bad-op"])
+  | [kind, c, v] =>
+    match kind, parseContent c, v.toNat? with
+    | "ckpt", some c, some v => both s (.ckpt c v)
+    | "fail", some c, some v => both s (.fail c v)
+    | _, _, _ =>
+      match parseOp ws with
+      | some op => both s (.on .main op)
+      | none => (s, ["bad-op"])
+  | [kind, c, v, k] =>
+    match kind, parseContent c, v.toNat?, k.toNat? with
+    | "ckptcrash", some c, some v, some k => both s (.ckptCrash c v k)
+    | "failcrash", some c, some v, some k => both s (.failCrash c v k)
+    | _, _, _, _ =>
+      match parseOp ws with
+      | some op => both s (.on .main op)
+      | none => (s, ["bad-op"])
+  | _ =>
+    match parseOp ws with
+    | some op => both s (.on .main op)
+    | none => (s, ["bad-op"])
 
 def main : IO Unit := Proto.run init step
